@@ -623,6 +623,21 @@ def resolve_fwd(t):
     return t
 
 
+def has_dup_union(t) -> bool:
+    """a union two of whose members are the same type term: Python collapses `Union[X, X]` to `X` (and `X | X` likewise) as
+    soon as both are evaluated, so the written union is not the annotation the class carries -- a degenerate spelling outside
+    the grammar of the property (a union lists DIFFERENT alternatives)"""
+    k = t[0]
+    if k == "union":
+        ms = t[1]
+        return any(ms[i] == ms[j] for i in range(len(ms)) for j in range(i + 1, len(ms))) or any(has_dup_union(m) for m in ms)
+    if k in ("nt", "vtuple"):
+        return has_dup_union(t[1])
+    if k == "coll":
+        return any(has_dup_union(m) for m in t[2])
+    return False
+
+
 def resolve_invariance_cases(rng, n):
     """Props/C11Fwd.lean `chainOutcome_mapRef` on the real code: a chain whose annotations name classes defined LATER
     (unresolvable when the class is defined: the definition-time check is skipped) and the same chain naming classes
@@ -630,8 +645,9 @@ def resolve_invariance_cases(rng, n):
     for _ in range(n):
         for _try in range(40):
             levels = random_levels(rng, rng.choice([1, 2, 2, 3]))
-            if any(z.mentions_fwd(t) for lvl in levels for _, t in lvl):
-                break
+            if any(z.mentions_fwd(t) for lvl in levels for _, t in lvl) and \
+                    not any(has_dup_union(resolve_fwd(t)) for lvl in levels for _, t in lvl):
+                break        # (members that differ only by forward vs resolved reference coincide after resolution)
         else:
             levels = [[("f", ("vtuple", ("fwd", 0)))], [("g", ("coll", "list", [("fwd", 1)]))]]
         resolved = [[(fn, resolve_fwd(t)) for fn, t in lvl] for lvl in levels]
